@@ -182,7 +182,9 @@ lys_compile_ext(struct lysc_ctx *ctx, struct lysp_ext_instance *extp, struct lys
         }
         ret = ext->def->plugin->compile(ctx, extp, ext);
         if (ret == LY_ENOT) {
+            /* the caller reuses the array item for the next instance, leave nothing behind */
             lysc_ext_instance_free(&ctx->free_ctx, ext);
+            memset(ext, 0, sizeof *ext);
         }
         if (ext->argument) {
             lysc_update_path(ctx, NULL, NULL);
